@@ -292,7 +292,10 @@ class QvmCpu:
         True is returned."""
 
         self.last_breakpoint = None
-        self.halted = False
+        if self.halted:
+            # the program has already finished (halt, end of code or
+            # trap); there is nothing left to run
+            return True
         self.halt_reason = HaltReason.NONE
         while True:
             if self.halted:
@@ -308,6 +311,9 @@ class QvmCpu:
                     return False
             else:
                 self.tick()
+            if self.halted:
+                # finished; keep the halt reason the program set
+                break
             for bp in self.breakpoints:
                 if bp(self):
                     self.last_breakpoint = bp
